@@ -19,7 +19,7 @@ from ..ref import drex as ref
 from ..sarr import SArr, patched, sarr
 from ..sym import R, real
 from . import kernel
-from .common import all_eq, eq, np_installed, pydrex_modules, sample
+from .common import all_eq, eq, np_installed, pydrex_modules, sample, only_path
 
 TIMEOUT_MS = {"quick": 60000, "thorough": 300000}
 INF = float("inf")
@@ -67,7 +67,7 @@ def t_invariants(sess):
 
     with np_installed(core):
         paths, _ = sym.explore(fn)
-    p = paths[0]
+    p = only_path(sess, paths)
     D, A, I = p.value
     sess.satisfiable("invariants: reach", p.pc)
     sess.prove("slip invariants I_s = l_s.D.n_s for the four documented systems (all 3x3 D, A)", p.pc, all_eq(I, ref.invariants(_lists(D), _lists(A))))
@@ -85,7 +85,7 @@ def t_schmid(sess):
 
         with np_installed(core):
             paths, _ = sym.explore(fn)
-        p = paths[0]
+        p = only_path(sess, paths)
         A, g, G = p.value
         sess.prove(f"Schmid tensor G_ij = 2 sum_s gamma_s l_i n_j ({ph.name})", p.pc, all_eq(G, np.array(ref.schmid(_lists(A), list(g)), dtype=object)))
     sess.satisfiable("schmid: reach", p.pc)
@@ -128,7 +128,7 @@ def t_spin(sess):
 
     with np_installed(core):
         paths, _ = sym.explore(fn)
-    p = paths[0]
+    p = only_path(sess, paths)
     A, L, G, g0, dA = p.value
     sess.satisfiable("spin: reach", p.pc)
     sess.prove("orientation rate dA = -A.W', W' = antisymmetric part of (L - gamma0 G)", p.pc,
@@ -171,7 +171,7 @@ def t_slip_rates(sess, fabric):
             paths, _ = sym.explore(fn)
         if len(paths) != 1 or paths[0].exc is not None:
             raise sym.HarnessError(f"slip rates: unexpected paths {paths}")
-        p = paths[0]
+        p = only_path(sess, paths)
         I, n, g, want = p.value
         for ob in p.obligations:
             sess.prove(f"slip rates[{fabric}] order {perm}: {ob.kind} cannot happen", ob.pc, ob.cond)
@@ -215,7 +215,7 @@ def t_energy(sess, phase, fabric):
         paths, _ = sym.explore(fn)
     if len(paths) != 1 or paths[0].exc is not None:
         raise sym.HarnessError(f"energy: unexpected paths {paths}")
-    p = paths[0]
+    p = only_path(sess, paths)
     g, g0, E, want = p.value
     for ob in p.obligations:
         sess.prove(f"energy[{fabric}]: {ob.kind} cannot happen at `{(ob.site or ('', '?'))[1]}`", ob.pc, ob.cond)
